@@ -342,14 +342,26 @@ fn argument_separator(input: &[u8]) -> ParseResult<()> {
 
 /// Parses an argument value.
 fn argument(input: &[u8]) -> ParseResult<Value<'_>> {
+    /// Tries the next alternative, unless the previous one ran out of input:
+    /// a value that is cut off by the end of the input must not be
+    /// reinterpreted as a different (invalid) kind of value.
+    fn or<'a>(
+        parser: fn(&'a [u8]) -> ParseResult<'a, Value<'a>>, input: &'a [u8],
+    ) -> impl FnOnce(ParseError) -> ParseResult<'a, Value<'a>> {
+        move |error| match error {
+            ParseError::Incomplete => Err(ParseError::Incomplete),
+            _ => parser(input),
+        }
+    }
+
     characters(input)
-        .or_else(|_| decimal_numeric_program_data(input))
-        .or_else(|_| hexadecimal_numeric_program_data(input))
-        .or_else(|_| binary_numeric_program_data(input))
-        .or_else(|_| octal_numeric_program_data(input))
-        .or_else(|_| single_quoted_string_program_data(input))
-        .or_else(|_| double_quoted_string_program_data(input))
-        .or_else(|_| arbitrary_program_data(input))
+        .or_else(or(decimal_numeric_program_data, input))
+        .or_else(or(hexadecimal_numeric_program_data, input))
+        .or_else(or(binary_numeric_program_data, input))
+        .or_else(or(octal_numeric_program_data, input))
+        .or_else(or(single_quoted_string_program_data, input))
+        .or_else(or(double_quoted_string_program_data, input))
+        .or_else(or(arbitrary_program_data, input))
 }
 
 /// Parses multiple arguments separated by commas.
